@@ -140,6 +140,32 @@ def explore(ctx):
             failures.append({'kind': 'spec', 'what': 'a row the parser rejects changed the output for the other rows', 'payload': {'query': q, 'input_lines': lines[:pos] + [bad] + lines[pos:]}})
         elif b'error:' not in b['err']:
             failures.append({'kind': 'spec', 'what': 'a rejected row before any aggregation was skipped without an error: line on stderr', 'payload': {'query': q, 'bad_line': bad}})
+    # the same after an aggregation: an aggregate row on which a later row operator fails is skipped, every other
+    # aggregate row comes through (reference: each group run alone through the same query, results put together)
+    for i in range(12 if quick else 200):
+        keys = [rng.choice([None, 1, 2, 3, 'x', True, 4.5]) for _ in range(rng.randint(3, 9))]
+        lines = [json.dumps({'id': j} if k is None else {'id': j, 'k': k}) + '\n' for j, k in enumerate(keys)]
+        q = '* | json | count by k | ' + rng.choice(['k * 10 as k10', 'k - 1 as k10 | k10 + _count as s', 'k / 2 as h | where h >= 0'])
+        full = aglib.run_impl_one(q, ''.join(lines).encode('utf8'), 'json')
+        iso += 1
+        groups = {}
+        for ln, k in zip(lines, keys):
+            groups.setdefault(repr(k), []).append(ln)
+        parts = []
+        for g in groups.values():
+            o = aglib.run_impl_one(q, ''.join(g).encode('utf8'), 'json')
+            try:
+                parts += json.loads(o['out'].decode('utf8') or '[]') if o['rc'] == 0 else []
+            except ValueError:
+                pass
+        try:
+            got = json.loads(full['out'].decode('utf8') or '[]') if full['rc'] == 0 else None
+        except ValueError:
+            got = None
+        canon = lambda rows: sorted(json.dumps(r, sort_keys=True) for r in rows)
+        if got is None or canon(got) != canon(parts):
+            failures.append({'kind': 'spec', 'what': 'after an aggregation, a row on which a later operator fails changed the result for other rows: got %r, each group alone gives %r' % (got, parts),
+                             'payload': {'query': q, 'input_lines': lines}})
     # correspondence: generated pipelines on the well-formed input through the model (outcome class + rows)
     cases = []
     for i in range(80 if quick else 2000):
